@@ -120,6 +120,10 @@ def check_c10(chk, tier):
     r = vlib.tlc("MC_C10", "MC_C10.quick.cfg", workers=8, timeout=3000)
     chk.add_tlc(r)
     beh = r.records.get("REPLAY", [])
+    # length 4 over eight boundary sizes (from four members on, sorting can make a declared order worse)
+    r4q = vlib.tlc("MC_C10", "MC_C10.len4.cfg", workers=8, timeout=3000)
+    chk.add_tlc(r4q)
+    beh += [b for b in r4q.records.get("REPLAY", []) if len(b["sizes"]) == 4]
     if tier == "thorough":
         # all 1 082 401 sequences of length <= 4 against the true optimum (model checking only) ...
         r4 = vlib.tlc("MC_C10", "MC_C10.thorough.cfg", workers=12, timeout=3400, xmx="16g")
@@ -228,9 +232,18 @@ def _layout_check(chk, tier, pid):
     xpath = os.path.join(d, "texts.ndjson")
     mode = "c17" if pid == "C17" else "c02"
     per = {"quick": 8, "thorough": 40}[tier]
-    res = vlib.harness(hb, ["layout-record", corpus, ppath, mode, str(per), tpath, xpath], timeout=3000)
+    dpath = os.path.join(d, "trace-detect.ndjson")
+    res = vlib.harness(hb, ["layout-record", corpus, ppath, mode, str(per), tpath, xpath, dpath], timeout=3000)
     chk.add_harness(res, count_traces=False)
     texts = vlib.read_ndjson(xpath)
+    if pid == "C02":
+        # on re-laid-out texts constructs span several lines: reported lines must be lines where a matching construct begins
+        def describe_p(rec, why):
+            det, verdict = why.split(":")
+            return ("relayout-construct-line:%s:%s" % (det, verdict),
+                    "%s on the re-laid-out %s reports %s: not the lines on which its constructs begin" % (det, rec["src"], rec["results"].get(det)),
+                    {"detector": det})
+        trace_validate(chk, "TV_Patterns", dpath, describe_p, env={"MODE": "ALL"}, timeout=3000)
 
     def describe(rec, det):
         idx = describe.recs.index(rec) if False else None
